@@ -140,6 +140,27 @@ public:
 
   std::string typeStr(QualType T) { return T.getAsString(PP); }
 
+  // name of the (outermost) macro parameter a token was passed through
+  std::string macroParam(SourceLocation L) {
+    std::string Res;
+    int Guard = 0;
+    while (L.isMacroID() && Guard++ < 12) {
+      if (SM.isMacroArgExpansion(L)) {
+        // the expansion point of an argument token is the parameter's use
+        // in the macro body; its spelling is the parameter name
+        SourceLocation Use = SM.getImmediateExpansionRange(L).getBegin();
+        SourceLocation Sp = SM.getSpellingLoc(Use);
+        SmallString<32> Buf;
+        Res = Lexer::getSpelling(Sp, Buf, SM, Ctx.getLangOpts()).str();
+        // the argument text may itself come from an outer macro's parameter
+        L = SM.getImmediateSpellingLoc(L);
+      } else {
+        break;
+      }
+    }
+    return Res;
+  }
+
   void intTypeAttrs(QualType T) {
     QualType C = T.getCanonicalType();
     if (C->isIntegerType() && !C->isIncompleteType()) {
@@ -262,6 +283,11 @@ public:
     if (auto *DR = dyn_cast<DeclRefExpr>(E)) {
       J.attribute("k", "ref");
       declRefAttrs(DR->getDecl());
+      {
+        std::string MP = macroParam(DR->getLocation());
+        if (!MP.empty())
+          J.attribute("mp", MP);
+      }
       J.attribute("t", typeStr(E->getType()));
       intTypeAttrs(E->getType());
       return;
@@ -269,6 +295,11 @@ public:
     if (auto *ME = dyn_cast<MemberExpr>(E)) {
       J.attribute("k", "mem");
       J.attribute("f", ME->getMemberDecl()->getNameAsString());
+      {
+        std::string MP = macroParam(ME->getMemberLoc());
+        if (!MP.empty())
+          J.attribute("mp", MP);
+      }
       J.attribute("arrow", ME->isArrow());
       if (auto *FD = dyn_cast<FieldDecl>(ME->getMemberDecl()))
         J.attribute("rec", FD->getParent()->getNameAsString());
